@@ -162,7 +162,7 @@ def _exec_perdraw(spec):
     except Exception as exc:
         return {"harness_error": f"reader failed: {exc!r}", "violations": []}
     out = genrun.run_molecule(text, dict(spec["sched"]), props=("C07",), embed=spec.get("embed", "stub"),
-                              cap_mass=spec.get("cap_mass"), wall=90, ast=ast)
+                              cap_mass=spec.get("cap_mass"), wall=200, ast=ast)
     if out.harness_error:
         return {"harness_error": out.harness_error, "violations": []}
     if isinstance(out.exc, genrun.WallTimeout):
@@ -270,7 +270,7 @@ def _exec_sweep(spec):
             return {"block": k, "u_cap": None}
 
         # every generation of the sweep uses the same parsed object ("over repeated generation")
-        o = genrun.run_molecule(text, None, props=("C07",), embed="stub", cap_mass=None, wall=90, ast=ast, sched_obj=QSched(),
+        o = genrun.run_molecule(text, None, props=("C07",), embed="stub", cap_mass=None, wall=200, ast=ast, sched_obj=QSched(),
                                 draw_ctx_fn=ctx_fn, reuse_obj=parsed.get("obj"))
         if o.mol_obj is not None:
             parsed["obj"] = o.mol_obj
